@@ -282,7 +282,7 @@ func init() {
 			return []map[string]int{{"W": 4, "first": 4, "second": 2, "acks": 1}, {"W": 4, "first": 4, "second": 2, "acks": 2}, {"W": 5, "first": 3, "second": 3, "acks": 2},
 				{"W": 1, "first": 1, "second": 1, "acks": 1}, {"W": 8, "first": 8, "second": 16, "acks": 1}, {"W": 8, "first": 8, "second": 16, "acks": 2}}
 		},
-		Doc: "sender: Send(first) then Send(second) which must wait || receiver side delivers two window updates: every schedule must end with the second Send admitted (no lost wake-up, no deadlock)",
+		Doc: "sender: Send(first) then Send(second) which must wait || receiver side delivers two window updates: every schedule must end with the second Send admitted (no lost wake-up, no deadlock) and with the free send window equal to W - outstanding (no lost update of the window counter)",
 		Body: func(x *vexp.Ctx) {
 			vFreshGlobals()
 			W, first, second := x.P("W", 4), x.P("first", 4), x.P("second", 2)
@@ -314,6 +314,11 @@ func init() {
 			vsched.Join("second send admitted", func() bool { return done })
 			if !st2.OK() {
 				x.Fail("Send fails", "%v", st2)
+			}
+			// conservation: everything of the first message was acknowledged, the second is outstanding, so the
+			// sender's free window is exactly W - second whatever the interleaving of Send and window frames
+			if got, want := int(chS.unwrap().sendWindow.Load()), W-second; got != want {
+				x.Fail("send window accounting diverges under concurrent Send and window update", "W=%d first=%d (fully acknowledged) second=%d outstanding: free window %d, want %d", W, first, second, got, want)
 			}
 			x.Outcome = fmt.Sprintf("done=%v frames=%d", done, len(cs.frames))
 		},
